@@ -87,6 +87,16 @@ def judge_fail(res, r, obs, want_codes, case, tag):
     return True
 
 
+# legal declarations that the analyzer answers with P9999 ("not implemented") - each in another rule or stage
+UNSUPPORTED = [
+    "FUNCTION_BLOCK %(p)sTables\nVAR CONSTANT\n  table : ARRAY[1..2] OF INT := [1, 2];\nEND_VAR\nEND_FUNCTION_BLOCK\n",
+    "TYPE\n  %(p)sA : ARRAY[0..3] OF INT;\n  %(p)sAA : %(p)sA;\n  %(p)sA2 : %(p)sAA;\nEND_TYPE\n",
+    "PROGRAM %(p)sElems\nVAR a : ARRAY[0..3] OF INT; END_VAR\na[1] := 2;\nEND_PROGRAM\n",
+    "TYPE\n  %(p)sT : INT := 5;\nEND_TYPE\n",
+    "FUNCTION_BLOCK %(p)sConstStruct\nVAR CONSTANT\n  c : %(p)sS := (m := 1);\nEND_VAR\nEND_FUNCTION_BLOCK\nTYPE\n  %(p)sS : STRUCT m : INT; END_STRUCT;\nEND_TYPE\n",
+]
+
+
 def shard(shard_i, nshards, payload):
     res = core.Result()
     seed = payload["seed"]
@@ -147,6 +157,19 @@ def shard(shard_i, nshards, payload):
                         cons = conservation(obs)
                         if cons and not any(d["code"] in ("P0010", "P0019", "P0020") for d in r.get("diags", [])):
                             res.violation("not-conserved", "conservation:placement", cons, case)
+                # ... and next to a file that is legal but uses something the analyzer has not implemented (it answers
+                # P9999 for it): whatever is said about that file, the set does not become acceptable
+                utext = rng.choice(UNSUPPORTED) % {"p": "U%d" % i}
+                files = [(part_names[0], vgen.render_unit(mutant, oscat=osc)), (other_name, utext)] + rng.sample(companions, rng.randint(0, 2))
+                rng.shuffle(files)
+                r, obs = project_semantic(probe, files)
+                res.evaluations += 1
+                res.count("placement-with-unsupported-companion")
+                case = {"files": files, "planted": code, "site": site}
+                if isinstance(r, dict) and r.get("ok"):
+                    res.violation("masked", "rule:%s:with-unsupported-companion:accepted" % code, {"codes": []}, case)
+                elif not isinstance(r, dict):
+                    res.violation("crash", "crash:with-unsupported-companion", str(obs)[:300], case)
             # ---- (1b) lexical and syntax fault files among valid files
             import hostile
             for name, text, want in (LEX_FAULT, SYN_FAULT, ("lexical-where", None, {"P0031", "P0002"})):
